@@ -1,7 +1,9 @@
 (* C14 driver for the extracted model.  One case per line (see harness/c14_rns.C for the result format):
-     int <cksrc> <hist> n p1..pn r1..rn na a1..a_na k o1..ok   (o = the unrelated system used to warm caches)
-     rns <hist> n p1..pn r1..rn na a1..a_na k o1..ok
-     bal n p1..pn r1..rn na a1..a_na                          (balanced residue domains; the answers do not depend on the history)
+     int <cksrc> <ttck> <ctor> <order> <hist> n p1..pn r1..rn na a1..a_na k o1..ok
+          (cksrc/ttck: facts read from the source; ctor: element type of the constructor argument, Integer = plain constructor;
+           order: the entry point called first; o = the unrelated system used to warm caches)
+     rns <order> <hist> n p1..pn r1..rn na a1..a_na k o1..ok
+     bal <order> n p1..pn r1..rn na a1..a_na                  (balanced residue domains; the answers do not depend on the history)
      fixed n p1..pn r1..rn
      cra <reduce|noreduce|fixed> M D A e
      lift <reduce|fixed> n p1..pn r1..rn
@@ -14,10 +16,15 @@ let rec drop n l = if n <= 0 then l else match l with [] -> failwith "short line
 let hist_of = function
   | "fresh" | "freshtt" -> Model.Hfresh | "reuse" -> Model.Hreuse | "copycold" -> Model.Hcopycold
   | "copywarm" | "copymod" -> Model.Hcopywarm | "copy2" -> Model.Hcopy2 | "assigncold" -> Model.Hassigncold
-  | "assignwarm" | "assignsame" -> Model.Hassignwarm | "setcold" -> Model.Hsetcold | "setwarm" | "setsame" | "setback" -> Model.Hsetwarm
+  | "assignwarm" | "assignsame" | "assigncc" -> Model.Hassignwarm | "setcold" | "dfltcopyset" -> Model.Hsetcold
+  | "setwarm" | "setsame" | "setback" -> Model.Hsetwarm
   | s -> failwith ("hist " ^ s)
 let src_of = function
   | "primes" -> Model.FromPrimes | "ck" -> Model.FromCk | "nothing" -> Model.FromNothing | s -> failwith ("cksrc " ^ s)
+let ckinit_of = function "empty" -> Model.CkEmpty | "sized" -> Model.CkSized | s -> failwith ("ckinit " ^ s)
+let order_of = function
+  | "mix" -> Model.Fmix | "ring" -> Model.Fring | "recip" -> Model.Frecip | "recipi" -> Model.Frecipi
+  | "prod" -> Model.Fprod | "rns" -> Model.Frns | s -> failwith ("order " ^ s)
 let strip_trailing_zeros l =
   let rec go = function [] -> [] | x :: t -> if x = Model.Z0 then go t else x :: t in
   List.rev (go (List.rev l))
@@ -31,7 +38,7 @@ let parse_sys rest =
   | _ -> failwith "short line"
 let () = run_lines (fun toks ->
   match toks with
-  | "int" :: src :: h :: rest ->
+  | "int" :: src :: ttck :: ctor :: order :: h :: rest ->
     let (p, r, rest) = parse_sys rest in
     (match rest with
      | nas :: rest ->
@@ -40,12 +47,15 @@ let () = run_lines (fun toks ->
        let rest = drop na rest in
        let ks = List.hd rest and os = List.tl rest in
        let o = List.map zs (take (int_of_string ks) os) in
-       let (((((mix, v), pr), rrs), ck), v2) = Model.int_run (src_of src) (hist_of h) p o r al in
+       let mk = if ctor = "Integer" then Model.int_mk else Model.int_mk_tt (ckinit_of ttck) in
+       let (((((((mix, v), pr), rrs), ck), v2), p2), first) = Model.int_run (src_of src) mk (order_of order) (hist_of h) p o r al in
        let rr = List.concat (List.map fst rrs) and back = List.map snd rrs in
+       let rr0 = (match List.rev rrs with [] -> [] | (x, _) :: _ -> x) in
        grp mix ^ "| " ^ string_of_z v ^ " | " ^ string_of_z pr ^ " | " ^ grp rr ^ "| " ^ grp back ^ "| " ^ grp ck ^ "| " ^ string_of_z v2
        ^ " | " ^ string_of_int (List.length p) ^ " " ^ grp p ^ "| " ^ grp p ^ "| " ^ grp ck ^ "| " ^ string_of_z v
+       ^ " | " ^ string_of_z p2 ^ " | " ^ grp rr0 ^ "| " ^ grp first
   | _ -> "BAD-LINE")
-  | "rns" :: h :: rest ->
+  | "rns" :: order :: h :: rest ->
     let (p, r, rest) = parse_sys rest in
     (match rest with
      | nas :: rest ->
@@ -54,29 +64,37 @@ let () = run_lines (fun toks ->
        let rest = drop na rest in
        let ks = List.hd rest and os = List.tl rest in
        let o = List.map zs (take (int_of_string ks) os) in
-       let ((((mix, v), rrs), ck), v2) = Model.dom_run (hist_of h) p o r al in
+       let (((((mix, v), rrs), ck), v2), first) = Model.dom_run (order_of order) (hist_of h) p o r al in
        let rr = List.concat (List.map fst rrs) and back = List.map snd rrs in
+       let rr0 = (match List.rev rrs with [] -> [] | (x, _) :: _ -> x) in
        grp mix ^ "| " ^ string_of_z v ^ " | " ^ grp rr ^ "| " ^ grp back ^ "| " ^ grp ck ^ "| " ^ string_of_z v2
        ^ " | " ^ string_of_int (List.length p) ^ " " ^ grp p ^ "| " ^ grp p ^ "| " ^ grp ck ^ "| " ^ string_of_z v
+       ^ " | " ^ grp mix ^ "| " ^ grp mix ^ "| " ^ grp rr0 ^ "| " ^ grp first
   | _ -> "BAD-LINE")
-  | "bal" :: rest ->
+  | "bal" :: order :: rest ->
     let (p, r, rest) = parse_sys rest in
     (match rest with
      | nas :: rest ->
        let al = List.map zs (take (int_of_string nas) rest) in
        let (((mix, v), rrs), ck) = Model.bal_run p r al in
        let rr = List.concat (List.map fst rrs) and back = List.map snd rrs in
+       let rr0 = (match List.rev rrs with [] -> [] | (x, _) :: _ -> x) in
+       let last1 l = (match List.rev l with [] -> [] | x :: _ -> [x]) in
+       let first = (match order with
+           | "mix" | "prod" -> mix | "ring" -> [v] | "recip" -> ck | "recipi" -> last1 ck
+           | "rns" -> (match rrs with [] -> [] | (x, _) :: _ -> x) | s -> failwith ("order " ^ s)) in
        grp mix ^ "| " ^ string_of_z v ^ " | " ^ grp rr ^ "| " ^ grp back ^ "| " ^ grp ck ^ "| " ^ string_of_z v
        ^ " | " ^ string_of_int (List.length p) ^ " " ^ grp p ^ "| " ^ grp p ^ "| " ^ grp ck ^ "| " ^ string_of_z v
+       ^ " | " ^ grp mix ^ "| " ^ grp mix ^ "| " ^ grp rr0 ^ "| " ^ grp first
      | _ -> "BAD-LINE")
   | "fixed" :: rest ->
     let (p, r, _) = parse_sys rest in
     let v = string_of_z (Model.fixed_RnsToRing p r) in v ^ " " ^ v
-  | ["cra"; variant; m; d; a; e] ->
+  | [("cra" | "cra3") as kw; variant; m; d; a; e] ->
     let f = (match variant with
         | "reduce" -> Model.cra_reduce | "noreduce" -> Model.cra_noreduce | "fixed" -> Model.cra_reduce_fixed
         | s -> failwith ("variant " ^ s)) in
-    let v = string_of_z (f (zs m) (zs d) (zs a) (zs e)) in v ^ " " ^ v
+    let v = string_of_z (f (zs m) (zs d) (zs a) (zs e)) in if kw = "cra3" then v ^ " " ^ v ^ " " ^ v else v ^ " " ^ v
   | "lift" :: variant :: rest ->
     let (p, r, _) = parse_sys rest in
     let f = (match variant with "reduce" -> Model.cra_reduce | "fixed" -> Model.cra_reduce_fixed | s -> failwith ("variant " ^ s)) in
